@@ -5,7 +5,7 @@
 //! polyline family (struct built directly), concrete pairwise-distinct for polygons / multipatch
 //! (their constructors compute float areas, which CBMC cannot afford on symbolic doubles).
 use crate::record::polyline::GenericPolyline;
-use crate::record::{EsriShape, GenericBBox, WritableShape};
+use crate::record::{GenericBBox, WritableShape};
 use crate::*;
 
 fn f64_at(b: &[u8], p: usize) -> u64 {
